@@ -332,7 +332,7 @@ pub fn evaluate(plan: &Plan, rec: &RunRecord, st: &mut Stats) {
             let conn_state = if port.is_some_and(|p| drained.contains_key(&p)) {
                 "queued_in_inbox"
             } else if port.is_some_and(|p| started.contains_key(&p)) {
-                "task_spawned_nothing_read"
+                "task_spawned_request_not_parsed"
             } else {
                 "unknown"
             };
